@@ -14,6 +14,14 @@ package main
 // of variable slot s; slots 1..3 = instance variables v1..v3, 11,12 = init keywords :k11 :k12;
 // method ids 1..999 = user method bodies (they push their name on *c11-tr*), 0 = a vanilla-flavor
 // built-in, 1000+s / 2000+s = the generated getter / setter of slot s.
+//
+// Extension round: method ids 500..999 are evaluated in ANOTHER package (c11other, which does not
+// see the flavors of the case); slot 20 is the :default-handler (observed by sending a message
+// nobody handles); W tokens are whoppers whose body makes one (continue-whopper (+ arg d)) per
+// listed d (none, one or two), A observations send with an argument and compare the argument
+// every daemon was called with. An F token may carry :included-flavors (5th field; the model
+// appends them to the components); slots 31..33 say "variable v1..v3 is listed in this flavor's
+// :initable-instance-variables" (sweep cells of the known finding only).
 
 import (
 	"fmt"
@@ -47,6 +55,9 @@ type c11Tok struct {
 	Msg   int
 	ID    int
 	Slot  int
+	Incl  []int // F: :included-flavors
+	Ds    []int // W: the argument change of every (continue-whopper) call of the body
+	Arg   int   // A: the argument of the send
 }
 
 func (t c11Tok) wire() string {
@@ -64,9 +75,24 @@ func (t c11Tok) wire() string {
 				ss[i] = fmt.Sprintf("%d=-", s.S)
 			}
 		}
+		if len(t.Incl) > 0 {
+			is := make([]string, len(t.Incl))
+			for i, c := range t.Incl {
+				is[i] = strconv.Itoa(c)
+			}
+			return fmt.Sprintf("F:%d:%s:%s:%s", t.Fl, strings.Join(cs, ","), strings.Join(ss, ";"), strings.Join(is, ","))
+		}
 		return fmt.Sprintf("F:%d:%s:%s", t.Fl, strings.Join(cs, ","), strings.Join(ss, ";"))
 	case 'M':
 		return fmt.Sprintf("M:%d:%c:%d:%d", t.Fl, t.Kind, t.Msg, t.ID)
+	case 'W':
+		ds := make([]string, len(t.Ds))
+		for i, d := range t.Ds {
+			ds[i] = strconv.Itoa(d)
+		}
+		return fmt.Sprintf("W:%d:%d:%d:%s", t.Fl, t.Msg, t.ID, strings.Join(ds, ","))
+	case 'A':
+		return fmt.Sprintf("A:%d:%d:%d", t.Fl, t.Msg, t.Arg)
 	case 'S':
 		return fmt.Sprintf("S:%d:%d", t.Fl, t.Msg)
 	case 'V':
@@ -87,9 +113,14 @@ func c11ParseTok(s string) (t c11Tok, ok bool) {
 	}
 	ok = true
 	switch {
-	case p[0] == "F" && len(p) == 4:
+	case p[0] == "F" && (len(p) == 4 || len(p) == 5):
 		t.K = 'F'
 		t.Fl = atoi(p[1])
+		if len(p) == 5 && p[4] != "" {
+			for _, c := range strings.Split(p[4], ",") {
+				t.Incl = append(t.Incl, atoi(c))
+			}
+		}
 		if p[2] != "" {
 			for _, c := range strings.Split(p[2], ",") {
 				t.Comps = append(t.Comps, atoi(c))
@@ -107,6 +138,15 @@ func c11ParseTok(s string) (t c11Tok, ok bool) {
 		}
 	case p[0] == "M" && len(p) == 5 && len(p[2]) == 1:
 		t.K, t.Fl, t.Kind, t.Msg, t.ID = 'M', atoi(p[1]), p[2][0], atoi(p[3]), atoi(p[4])
+	case p[0] == "W" && len(p) == 5:
+		t.K, t.Fl, t.Kind, t.Msg, t.ID = 'W', atoi(p[1]), 'w', atoi(p[2]), atoi(p[3])
+		if p[4] != "" {
+			for _, d := range strings.Split(p[4], ",") {
+				t.Ds = append(t.Ds, atoi(d))
+			}
+		}
+	case p[0] == "A" && len(p) == 4:
+		t.K, t.Fl, t.Msg, t.Arg = 'A', atoi(p[1]), atoi(p[2]), atoi(p[3])
 	case p[0] == "S" && len(p) == 3:
 		t.K, t.Fl, t.Msg = 'S', atoi(p[1]), atoi(p[2])
 	case p[0] == "V" && len(p) == 3:
@@ -144,11 +184,25 @@ func c11MsgName(m int) string {
 }
 
 func c11SlotName(s int) string {
+	if s == c11HandlerSlot {
+		return ":default-handler"
+	}
+	if s > c11InitableBase {
+		return fmt.Sprintf(":v%d", s-c11InitableBase)
+	}
 	if s >= 10 {
 		return fmt.Sprintf(":k%d", s)
 	}
 	return fmt.Sprintf("v%d", s)
 }
+
+const c11HandlerSlot = 20
+
+// slot c11InitableBase+k: variable v<k> is listed in :initable-instance-variables
+const c11InitableBase = 30
+
+// method ids evaluated in the other package
+func c11OtherPkg(id int) bool { return id >= 500 && id < 1000 }
 
 func c11KindName(k byte) string {
 	switch k {
@@ -174,6 +228,7 @@ type c11Impl struct {
 	names  map[int]string // flavor id -> lisp name, for flavors defined in this case
 	ids    map[string]int
 	text   []string // the forms evaluated (for the replay file)
+	home   string   // name of the package the case runs in
 }
 
 func (r *c11Impl) name(fl int) string {
@@ -189,11 +244,27 @@ func (r *c11Impl) eval(src string) lib.Outcome { return lib.EvalString(r.scope, 
 func (r *c11Impl) formText(toks []c11Tok, i int) (src string, used int) {
 	t := toks[i]
 	used = 1
-	if t.K == 'M' {
+	if t.K == 'M' || t.K == 'W' {
 		nm := r.name(t.Fl)
+		if c11OtherPkg(t.ID) && t.Kind != 'w' {
+			// defmethod finds the flavor as a class of a package, defwhopper by its bare name
+			nm = r.home + ":" + nm
+		}
+		// every body records its name and the argument it was called with
+		note := func(ev string) string {
+			return fmt.Sprintf("(setq *c11-tr* (cons '%s *c11-tr*)) (setq *c11-ar* (cons (car args) *c11-ar*))", ev)
+		}
+		if t.K == 'W' {
+			var calls []string
+			for _, d := range t.Ds {
+				calls = append(calls, fmt.Sprintf("(setq r (continue-whopper (+ (or (car args) 0) %d)))", d))
+			}
+			return fmt.Sprintf("(defwhopper (%s %s) (&rest args) %s (let ((r 'w%d)) %s %s r))",
+				nm, c11MsgName(t.Msg), note(fmt.Sprintf("wi%d", t.ID)), t.ID, strings.Join(calls, " "), note(fmt.Sprintf("wo%d", t.ID))), 1
+		}
 		if t.Kind == 'w' {
-			return fmt.Sprintf("(defwhopper (%s %s) (&rest args) (setq *c11-tr* (cons 'wi%d *c11-tr*)) (let ((r (continue-whopper))) (setq *c11-tr* (cons 'wo%d *c11-tr*)) r))",
-				nm, c11MsgName(t.Msg), t.ID, t.ID), 1
+			return fmt.Sprintf("(defwhopper (%s %s) (&rest args) %s (let ((r (continue-whopper (car args)))) %s r))",
+				nm, c11MsgName(t.Msg), note(fmt.Sprintf("wi%d", t.ID)), note(fmt.Sprintf("wo%d", t.ID))), 1
 		}
 		q := ""
 		if t.Kind == 'b' {
@@ -201,12 +272,18 @@ func (r *c11Impl) formText(toks []c11Tok, i int) (src string, used int) {
 		} else if t.Kind == 'a' {
 			q = ":after "
 		}
-		return fmt.Sprintf("(defmethod (%s %s%s) (&rest args) (setq *c11-tr* (cons '%c%d *c11-tr*)) '%c%d)",
-			nm, q, c11MsgName(t.Msg), t.Kind, t.ID, t.Kind, t.ID), 1
+		return fmt.Sprintf("(defmethod (%s %s%s) (&rest args) %s '%c%d)",
+			nm, q, c11MsgName(t.Msg), note(fmt.Sprintf("%c%d", t.Kind, t.ID)), t.Kind, t.ID), 1
 	}
 	var vars, gets, sets, kws, plist []string
+	handler := ""
+	var initable []string
 	for _, s := range t.Slots {
 		switch {
+		case s.S > c11InitableBase:
+			initable = append(initable, fmt.Sprintf("v%d", s.S-c11InitableBase))
+		case s.S == c11HandlerSlot:
+			handler = fmt.Sprintf(" (:default-handler (lambda (&rest args) 'h%d))", s.V)
 		case s.S >= 10 && s.Has:
 			plist = append(plist, fmt.Sprintf("(%s %d)", c11SlotName(s.S), s.V))
 		case s.S >= 10:
@@ -242,7 +319,17 @@ func (r *c11Impl) formText(toks []c11Tok, i int) (src string, used int) {
 	if len(plist) > 0 {
 		src += " (:default-init-plist " + strings.Join(plist, " ") + ")"
 	}
-	return src + ")", used
+	if len(initable) > 0 {
+		src += " (:initable-instance-variables " + strings.Join(initable, " ") + ")"
+	}
+	if len(t.Incl) > 0 {
+		var is []string
+		for _, c := range t.Incl {
+			is = append(is, r.name(c))
+		}
+		src += " (:included-flavors " + strings.Join(is, " ") + ")"
+	}
+	return src + handler + ")", used
 }
 
 var c11ResultRe = regexp.MustCompile(`^p[0-9]+$`)
@@ -272,6 +359,30 @@ func (r *c11Impl) trace() string {
 	return strings.Join(ev, ",")
 }
 
+// the trace with the argument every body was called with: name@arg
+func (r *c11Impl) traceArgs() string {
+	o := r.eval("(list (reverse *c11-tr*) (reverse *c11-ar*))")
+	if !o.Ok {
+		return "?trace:" + o.Class
+	}
+	both, _ := o.Value.(slip.List)
+	if len(both) != 2 {
+		return "?trace"
+	}
+	names, _ := both[0].(slip.List)
+	args, _ := both[1].(slip.List)
+	if len(names) != len(args) {
+		return "?trace-length"
+	}
+	ev := make([]string, len(names))
+	for i, x := range names {
+		ev[i] = slip.ObjectString(x) + "@" + slip.ObjectString(args[i])
+	}
+	return strings.Join(ev, ",")
+}
+
+var c11HandledRe = regexp.MustCompile(`^h[0-9]+$`)
+
 func (r *c11Impl) instance(fl int) (*flavors.Instance, string) {
 	if _, ok := r.names[fl]; !ok {
 		return nil, "undefined-flavor"
@@ -287,6 +398,28 @@ func (r *c11Impl) instance(fl int) (*flavors.Instance, string) {
 	return inst, ""
 }
 
+// send with an argument: (send inst msg arg); events carry the argument they saw
+func (r *c11Impl) sendArg(fl, msg, arg int) string {
+	inst, bad := r.instance(fl)
+	if inst == nil {
+		return "A=!" + bad
+	}
+	r.scope.Let(slip.Symbol("c11inst"), inst)
+	r.eval("(setq *c11-tr* nil *c11-ar* nil)")
+	o := r.eval(fmt.Sprintf("(send c11inst %s %d)", c11MsgName(msg), arg))
+	if !o.Ok {
+		if o.Class == "invalid-method-error" {
+			return "A=!no-method"
+		}
+		return "A=!" + o.Class
+	}
+	tr := r.traceArgs()
+	if tr == "" && c11HandledRe.MatchString(o.Text) {
+		return "A=!handled:" + o.Text[1:]
+	}
+	return "A=" + tr + "/r" + c11ShowResult(msg, o.Value)
+}
+
 // send through Instance.Receive (the send function) or through Instance.BoundReceive
 func (r *c11Impl) send(fl, msg int, bound bool) string {
 	inst, bad := r.instance(fl)
@@ -294,10 +427,13 @@ func (r *c11Impl) send(fl, msg int, bound bool) string {
 		return "S=!" + bad
 	}
 	r.scope.Let(slip.Symbol("c11inst"), inst)
-	r.eval("(setq *c11-tr* nil)")
+	r.eval("(setq *c11-tr* nil *c11-ar* nil)")
 	var o lib.Outcome
 	if bound {
-		o = lib.Protect(func() slip.Object { return inst.BoundReceive(r.scope, c11MsgName(msg), nil, 0) })
+		// the bodies look at their &rest parameter: bound to the empty list here
+		bindings := slip.NewScope()
+		bindings.Let(slip.Symbol("args"), nil)
+		o = lib.Protect(func() slip.Object { return inst.BoundReceive(r.scope, c11MsgName(msg), bindings, 0) })
 	} else {
 		arg := ""
 		if msg >= 200 {
@@ -311,7 +447,11 @@ func (r *c11Impl) send(fl, msg int, bound bool) string {
 		}
 		return "S=!" + o.Class
 	}
-	return "S=" + r.trace() + "/r" + c11ShowResult(msg, o.Value)
+	tr := r.trace()
+	if tr == "" && c11HandledRe.MatchString(o.Text) {
+		return "S=!handled:" + o.Text[1:]
+	}
+	return "S=" + tr + "/r" + c11ShowResult(msg, o.Value)
 }
 
 func (r *c11Impl) slot(fl, s int) (seg string, extra string) {
@@ -326,6 +466,41 @@ func (r *c11Impl) slot(fl, s int) (seg string, extra string) {
 			return "V=nil"
 		}
 		return fmt.Sprintf("V=%v", v)
+	}
+	if s > c11InitableBase {
+		// is the variable initable: make-instance with its keyword sets it (V=nil: it is)
+		v := fmt.Sprintf("v%d", s-c11InitableBase)
+		o := r.eval(fmt.Sprintf("(make-instance '%s :%s 4242)", r.name(fl), v))
+		if !o.Ok {
+			if o.Class == "error" {
+				return "V=none", ""
+			}
+			return "V=!" + o.Class, ""
+		}
+		if inst, _ := o.Value.(*flavors.Instance); inst != nil {
+			if got, has := inst.SlotValue(slip.Symbol(v)); has && slip.ObjectString(got) == "4242" {
+				return "V=nil", ""
+			}
+		}
+		return "V=?not-set", ""
+	}
+	if s == c11HandlerSlot {
+		// the default handler shows when a message nobody handles is sent
+		inst, bad := r.instance(fl)
+		if inst == nil {
+			return "V=!" + bad, ""
+		}
+		r.scope.Let(slip.Symbol("c11inst"), inst)
+		o := r.eval("(send c11inst :c11-nobody-handles-this 1)")
+		switch {
+		case o.Ok && c11HandledRe.MatchString(o.Text):
+			return "V=" + o.Text[1:], ""
+		case !o.Ok && o.Class == "invalid-method-error":
+			return "V=none", ""
+		case o.Ok:
+			return "V=?" + o.Text, ""
+		}
+		return "V=!" + o.Class, ""
 	}
 	if s < 10 {
 		inst, bad := r.instance(fl)
@@ -395,19 +570,39 @@ func (r *c11Impl) cleanup() {
 // not applicable) and extra complaints.
 func c11RunImpl(toks []c11Tok, caseNo int) (reply string, boundSegs []string, extras []string, text []string) {
 	r := &c11Impl{scope: slip.NewScope(), caseNo: caseNo, names: map[int]string{}, ids: map[string]int{"vanilla-flavor": 0}}
+	r.home = strings.ToLower(slip.CurrentPackage.Name)
 	if !c11TraceReady {
 		r.eval("(defvar *c11-tr* nil)")
+		r.eval("(defvar *c11-ar* nil)")
+		// a package that sees defmethod / defwhopper but none of the flavors of the cases
+		r.eval("(defpackage :c11other (:use :cl :flavors :clos :generic))")
 		c11TraceReady = true
 	}
+	homePkg := slip.CurrentPackage
+	defer func() { slip.CurrentPackage = homePkg }()
 	defer r.cleanup()
 	var segs []string
 	for i := 0; i < len(toks); {
 		t := toks[i]
 		switch t.K {
-		case 'F', 'M':
+		case 'F', 'M', 'W':
 			src, used := r.formText(toks, i)
-			r.text = append(r.text, src)
-			o := r.eval(src)
+			var o lib.Outcome
+			if t.K != 'F' && c11OtherPkg(t.ID) {
+				// evaluated in a package that does not see the flavors of the case
+				r.text = append(r.text, "(in-package :c11other)", src, "(in-package :"+r.home+")")
+				if in := r.eval("(in-package :c11other)"); !in.Ok {
+					return fmt.Sprintf("err machinery-in-package-%s@%d", in.Class, i), boundSegs, extras, r.text
+				}
+				o = r.eval(src)
+				back := r.eval("(in-package :" + r.home + ")")
+				if !back.Ok || slip.CurrentPackage != homePkg {
+					slip.CurrentPackage = homePkg
+				}
+			} else {
+				r.text = append(r.text, src)
+				o = r.eval(src)
+			}
 			if !o.Ok {
 				return fmt.Sprintf("err %s@%d", o.Class, i), boundSegs, extras, r.text
 			}
@@ -425,6 +620,9 @@ func c11RunImpl(toks []c11Tok, caseNo int) (reply string, boundSegs []string, ex
 				boundSegs = append(boundSegs, "")
 			}
 			r.text = append(r.text, fmt.Sprintf(";; observe (send (make-instance '%s) %s)", r.name(t.Fl), c11MsgName(t.Msg)))
+		case 'A':
+			segs = append(segs, r.sendArg(t.Fl, t.Msg, t.Arg))
+			r.text = append(r.text, fmt.Sprintf(";; observe (send (make-instance '%s) %s %d)", r.name(t.Fl), c11MsgName(t.Msg), t.Arg))
 		case 'V':
 			seg, extra := r.slot(t.Fl, t.Slot)
 			segs = append(segs, seg)
@@ -455,8 +653,8 @@ func c11MetaOf(toks []c11Tok) *c11Meta {
 		switch t.K {
 		case 'F':
 			m.posF[t.Fl] = i
-			m.comps[t.Fl] = t.Comps
-		case 'M':
+			m.comps[t.Fl] = append(append([]int{}, t.Comps...), t.Incl...)
+		case 'M', 'W':
 			if t.ID < 1000 {
 				m.owner[t.ID] = t
 				m.posM[t.ID] = i
@@ -494,7 +692,7 @@ func c11Expected(toks []c11Tok, modelReply string) (reply string, segs []string)
 	raw := strings.Fields(modelReply)[1:]
 	var obs []c11Tok
 	for _, t := range toks {
-		if t.K == 'S' || t.K == 'V' || t.K == 'P' {
+		if t.K == 'S' || t.K == 'A' || t.K == 'V' || t.K == 'P' {
 			obs = append(obs, t)
 		}
 	}
@@ -502,25 +700,32 @@ func c11Expected(toks []c11Tok, modelReply string) (reply string, segs []string)
 		return "bad-model-reply", nil
 	}
 	for i, seg := range raw {
-		if obs[i].K != 'S' || strings.HasPrefix(seg, "S=!") {
+		if (obs[i].K != 'S' && obs[i].K != 'A') || strings.HasPrefix(seg, "S=!") || strings.HasPrefix(seg, "A=!") {
 			segs = append(segs, seg)
 			continue
 		}
-		body := strings.TrimPrefix(seg, "S=")
+		tag := seg[:2]
+		body := seg[2:]
 		evs, res, _ := strings.Cut(body, "/r")
 		var keep []string
 		if evs != "" {
 			for _, e := range strings.Split(evs, ",") {
-				id, _ := strconv.Atoi(strings.TrimLeft(e, "wiobpa"))
+				name, _, _ := strings.Cut(e, "@")
+				id, _ := strconv.Atoi(strings.TrimLeft(name, "wiobpa"))
 				if id >= 1 && id < 1000 {
 					keep = append(keep, e)
 				}
 			}
 		}
 		want := "nil"
-		if res != "-" {
+		res, resArg, _ := strings.Cut(res, "@")
+		if strings.HasPrefix(res, "w") {
+			want = res // the own value of a whopper body that never continued
+		} else if res != "-" {
 			id, _ := strconv.Atoi(res)
 			switch {
+			case id >= 2000 && tag == "A=":
+				want = resArg // the setter returns its argument
 			case id == 0 && obs[i].Msg == 3:
 				want = "int"
 			case id == 0:
@@ -537,7 +742,7 @@ func c11Expected(toks []c11Tok, modelReply string) (reply string, segs []string)
 				want = "p" + res
 			}
 		}
-		segs = append(segs, "S="+strings.Join(keep, ",")+"/r"+want)
+		segs = append(segs, tag+strings.Join(keep, ",")+"/r"+want)
 	}
 	return "ok " + strings.Join(segs, " "), segs
 }
@@ -590,7 +795,34 @@ func c11SendSignature(toks []c11Tok, meta *c11Meta, ob c11Tok, exp, obs, entry s
 	case ob.Msg >= 100:
 		msgClass = "accessor-msg"
 	}
+	if strings.HasPrefix(exp, "A=") || strings.HasPrefix(obs, "A=") {
+		// a send with an argument: classify by the daemons first, by the arguments when the
+		// daemons agree
+		strip := func(seg string) string {
+			seg = "S=" + strings.TrimPrefix(seg, "A=")
+			if strings.HasPrefix(seg, "S=!") {
+				return seg
+			}
+			evs, res, _ := strings.Cut(strings.TrimPrefix(seg, "S="), "/r")
+			var out []string
+			if evs != "" {
+				for _, e := range strings.Split(evs, ",") {
+					name, _, _ := strings.Cut(e, "@")
+					out = append(out, name)
+				}
+			}
+			return "S=" + strings.Join(out, ",") + "/r" + res
+		}
+		se, so := strip(exp), strip(obs)
+		if se == so {
+			return fmt.Sprintf("entry=%s msg=%s aspect=argument", entry, msgClass)
+		}
+		exp, obs = se, so
+	}
 	if strings.HasPrefix(exp, "S=!") || strings.HasPrefix(obs, "S=!") {
+		if strings.Contains(exp, "!handled") || strings.Contains(obs, "!handled") {
+			return fmt.Sprintf("entry=%s msg=%s aspect=default-handler", entry, msgClass)
+		}
 		return fmt.Sprintf("entry=%s msg=%s aspect=condition", entry, msgClass)
 	}
 	et, er, _ := strings.Cut(strings.TrimPrefix(exp, "S="), "/r")
@@ -647,7 +879,7 @@ func c11SendSignature(toks []c11Tok, meta *c11Meta, ob c11Tok, exp, obs, entry s
 						continue
 					}
 					for _, t := range toks {
-						if t.K == 'M' && t.Fl == f && t.Msg == ob.Msg {
+						if (t.K == 'M' || t.K == 'W') && t.Fl == f && t.Msg == ob.Msg {
 							rel = "late-before-sibling"
 						}
 					}
@@ -676,6 +908,12 @@ type c11Prog struct {
 	msgs         []int // messages worth observing
 	slots        []int
 	redefinition bool
+	argMsgs      []int // messages also observed with an argument (A observations)
+	otherPkg     bool  // some methods are defined in the other package
+	bodies       bool  // some whoppers continue zero or two times / change the argument
+	handlers     bool
+	included     bool
+	initable     bool
 }
 
 func (p *c11Prog) finalObservations() []c11Tok {
@@ -690,6 +928,9 @@ func (p *c11Prog) finalObservations() []c11Tok {
 			if m >= 100 && m < 200 {
 				out = append(out, c11Tok{K: 'V', Fl: f, Slot: m - 100})
 			}
+		}
+		for _, m := range p.argMsgs {
+			out = append(out, c11Tok{K: 'A', Fl: f, Msg: m, Arg: 5 + m%7})
 		}
 	}
 	return out
@@ -792,7 +1033,11 @@ func (p *c11Prog) tokens(order []int, mid func(defined []int) []c11Tok) []c11Tok
 }
 
 func c11FlavorUnit(fl int, comps []int, slots []c11Slot, gets, sets []int, unitOf map[int]int) c11Unit {
-	u := c11Unit{fl: fl, toks: []c11Tok{{K: 'F', Fl: fl, Comps: comps, Slots: slots}}}
+	return c11FlavorUnitIncl(fl, comps, nil, slots, gets, sets, unitOf)
+}
+
+func c11FlavorUnitIncl(fl int, comps, incl []int, slots []c11Slot, gets, sets []int, unitOf map[int]int) c11Unit {
+	u := c11Unit{fl: fl, toks: []c11Tok{{K: 'F', Fl: fl, Comps: comps, Incl: incl, Slots: slots}}}
 	for _, s := range gets {
 		u.toks = append(u.toks, c11Tok{K: 'M', Fl: fl, Kind: 'p', Msg: 100 + s, ID: 1000 + s})
 	}
@@ -800,7 +1045,7 @@ func c11FlavorUnit(fl int, comps []int, slots []c11Slot, gets, sets []int, unitO
 		u.toks = append(u.toks, c11Tok{K: 'M', Fl: fl, Kind: 'p', Msg: 200 + s, ID: 2000 + s})
 	}
 	seen := map[int]bool{}
-	for _, c := range comps {
+	for _, c := range append(append([]int{}, comps...), incl...) {
 		if !seen[c] {
 			seen[c] = true
 			u.deps = append(u.deps, unitOf[c])
@@ -853,8 +1098,123 @@ func c11SweepProgs() (progs []*c11Prog, labels []string) {
 	return
 }
 
+// extension sweeps (seed independent): late methods defined in another package; whopper bodies
+// that continue zero / one / two times and change the argument; default handlers
+func c11SweepProgsExt() (progs []*c11Prog, labels []string) {
+	shapes := []struct {
+		name  string
+		comps [][]int
+	}{
+		{"siblings", [][]int{{}, {}, {1, 2}}},
+		{"chain", [][]int{{}, {1}, {2}}},
+	}
+	flavors := func(p *c11Prog, comps [][]int, slots map[int][]c11Slot) map[int]int {
+		unitOf := map[int]int{}
+		for i, cs := range comps {
+			unitOf[i+1] = len(p.units)
+			p.units = append(p.units, c11FlavorUnit(i+1, cs, slots[i+1], nil, nil, unitOf))
+		}
+		return unitOf
+	}
+	// (1) every method defined in the other package
+	for _, sh := range shapes {
+		for _, kind := range []byte{'p', 'b', 'a', 'w'} {
+			p := &c11Prog{nF: 3, msgs: []int{1}, otherPkg: true}
+			unitOf := flavors(p, sh.comps, nil)
+			id := 501
+			for f := 1; f <= 3; f++ {
+				p.units = append(p.units, c11Unit{toks: []c11Tok{{K: 'M', Fl: f, Kind: kind, Msg: 1, ID: id}}, deps: []int{unitOf[f]}})
+				id++
+			}
+			if kind != 'p' {
+				p.units = append(p.units, c11Unit{toks: []c11Tok{{K: 'M', Fl: 1, Kind: 'p', Msg: 1, ID: id}}, deps: []int{unitOf[1]}})
+			}
+			progs = append(progs, p)
+			labels = append(labels, fmt.Sprintf("other-package/%s/%s", sh.name, c11KindName(kind)))
+		}
+	}
+	// (2) whopper bodies
+	bodies := [][][]int{
+		{{1, 2}, {0}, {0}},
+		{{0}, {}, {0}},
+		{{0}, {1, 2}, {3}},
+		{{}, {0, 0}, {1}},
+		{{2, -1}, {1, 1}, {0}},
+	}
+	for _, sh := range shapes {
+		for bi, bs := range bodies {
+			p := &c11Prog{nF: 3, msgs: []int{1}, argMsgs: []int{1}, bodies: true}
+			unitOf := flavors(p, sh.comps, nil)
+			for f := 1; f <= 3; f++ {
+				p.units = append(p.units, c11Unit{toks: []c11Tok{{K: 'W', Fl: f, Kind: 'w', Msg: 1, ID: f, Ds: bs[f-1]}}, deps: []int{unitOf[f]}})
+			}
+			p.units = append(p.units, c11Unit{toks: []c11Tok{{K: 'M', Fl: 1, Kind: 'p', Msg: 1, ID: 4}}, deps: []int{unitOf[1]}})
+			p.units = append(p.units, c11Unit{toks: []c11Tok{{K: 'M', Fl: 2, Kind: 'b', Msg: 1, ID: 5}}, deps: []int{unitOf[2]}})
+			progs = append(progs, p)
+			labels = append(labels, fmt.Sprintf("whopper-bodies/%s/%d", sh.name, bi))
+		}
+	}
+	// (4) :included-flavors of a non-abstract flavor come after the written components
+	for ii, in := range []struct {
+		comps [][]int
+		incl  map[int][]int
+	}{
+		{[][]int{{}, {}, {1}}, map[int][]int{3: {2}}},
+		{[][]int{{}, {}, {}}, map[int][]int{3: {2, 1}}},
+		{[][]int{{}, {1}, {2}}, map[int][]int{3: {1}}},
+		{[][]int{{}, {}, {2}, {3}}, map[int][]int{3: {1}, 4: {1}}},
+	} {
+		for _, kind := range []byte{'b', 'p'} {
+			p := &c11Prog{nF: len(in.comps), msgs: []int{1}, included: true}
+			unitOf := map[int]int{}
+			for i, cs := range in.comps {
+				unitOf[i+1] = len(p.units)
+				p.units = append(p.units, c11FlavorUnitIncl(i+1, cs, in.incl[i+1], nil, nil, nil, unitOf))
+			}
+			id := 1
+			for f := 1; f <= 3; f++ {
+				p.units = append(p.units, c11Unit{toks: []c11Tok{{K: 'M', Fl: f, Kind: kind, Msg: 1, ID: id}}, deps: []int{unitOf[f]}})
+				id++
+			}
+			progs = append(progs, p)
+			labels = append(labels, fmt.Sprintf("included-flavors/%d/%s", ii, c11KindName(kind)))
+		}
+	}
+	// (5) :initable-instance-variables (known finding: not inherited, in neither direction)
+	{
+		// 1 = ((v1 1) (v2 2)) initable v1;  2 = ((v3 3)) (1) initable v3;  3 = () (1), no option
+		p := &c11Prog{nF: 3, msgs: []int{1}, slots: []int{c11InitableBase + 1, c11InitableBase + 2, c11InitableBase + 3}, initable: true}
+		unitOf := map[int]int{}
+		unitOf[1] = len(p.units)
+		p.units = append(p.units, c11FlavorUnit(1, nil, []c11Slot{{S: 1, Has: true, V: 1}, {S: 2, Has: true, V: 2}, {S: c11InitableBase + 1}}, nil, nil, unitOf))
+		unitOf[2] = len(p.units)
+		p.units = append(p.units, c11FlavorUnit(2, []int{1}, []c11Slot{{S: 3, Has: true, V: 3}, {S: c11InitableBase + 3}}, nil, nil, unitOf))
+		unitOf[3] = len(p.units)
+		p.units = append(p.units, c11FlavorUnit(3, []int{1}, nil, nil, nil, unitOf))
+		progs = append(progs, p)
+		labels = append(labels, "initable")
+	}
+	// (3) default handlers: on the first component only, the second only, both, the user too
+	for _, sh := range shapes {
+		for hi, hs := range [][]int{{1}, {2}, {1, 2}, {2, 3}, {}} {
+			slots := map[int][]c11Slot{}
+			for _, f := range hs {
+				slots[f] = []c11Slot{{S: c11HandlerSlot, Has: true, V: 10 * f}}
+			}
+			p := &c11Prog{nF: 3, msgs: []int{1}, slots: []int{c11HandlerSlot}, handlers: true}
+			unitOf := flavors(p, sh.comps, slots)
+			p.units = append(p.units, c11Unit{toks: []c11Tok{{K: 'M', Fl: 2, Kind: 'p', Msg: 1, ID: 1}}, deps: []int{unitOf[2]}})
+			progs = append(progs, p)
+			labels = append(labels, fmt.Sprintf("default-handler/%s/%d", sh.name, hi))
+		}
+	}
+	return
+}
+
 func c11RandomProg(rng *lib.Rng) *c11Prog {
-	p := &c11Prog{nF: 2 + rng.Intn(4), slots: []int{1, 2, 3, 11, 12}}
+	p := &c11Prog{nF: 2 + rng.Intn(4), slots: []int{1, 2, 3, 11, 12, c11HandlerSlot}}
+	p.otherPkg = rng.Chance(15)
+	p.bodies = rng.Chance(40)
 	if rng.Chance(10) {
 		p.nF = 1
 	}
@@ -885,6 +1245,10 @@ func c11RandomProg(rng *lib.Rng) *c11Prog {
 		}
 		var slots []c11Slot
 		var gets, sets []int
+		if rng.Chance(15) {
+			slots = append(slots, c11Slot{S: c11HandlerSlot, Has: true, V: 10 * f})
+			p.handlers = true
+		}
 		for _, s := range []int{1, 2, 3, 11, 12} {
 			if !rng.Chance(40) {
 				continue
@@ -905,8 +1269,17 @@ func c11RandomProg(rng *lib.Rng) *c11Prog {
 				}
 			}
 		}
+		var incl []int
+		if len(comps) >= 2 && rng.Chance(12) {
+			// the last written component becomes an included flavor instead
+			incl, comps = []int{comps[len(comps)-1]}, comps[:len(comps)-1]
+			p.included = true
+		} else if f > 2 && rng.Chance(6) {
+			incl = []int{1 + rng.Intn(f-1)}
+			p.included = true
+		}
 		unitOf[f] = len(p.units)
-		p.units = append(p.units, c11FlavorUnit(f, comps, slots, gets, sets, unitOf))
+		p.units = append(p.units, c11FlavorUnitIncl(f, comps, incl, slots, gets, sets, unitOf))
 	}
 	id := 1
 	density := 10 + rng.Intn(35)
@@ -917,14 +1290,26 @@ func c11RandomProg(rng *lib.Rng) *c11Prog {
 				if msg == 2 || msg >= 100 {
 					d = density / 3
 				}
-				if msg >= 200 && kind == 'w' {
-					continue // the whopper bodies call (continue-whopper) without arguments
-				}
 				if !rng.Chance(d) {
 					continue
 				}
+				tok := c11Tok{K: 'M', Fl: f, Kind: kind, Msg: msg, ID: id}
+				if kind == 'w' && msg >= 200 {
+					// a whopper around a setter passes its argument on (bodies that call
+					// (continue-whopper) without arguments are for the other messages)
+					tok.K, tok.Ds = 'W', [][]int{{0}, {0}, {}, {0, 0}}[rng.Intn(4)]
+				} else if kind == 'w' && msg != 4 && p.bodies && rng.Chance(50) {
+					tok.K = 'W'
+					tok.Ds = [][]int{{}, {0}, {1}, {0, 0}, {1, 2}, {2, -1}}[rng.Intn(6)]
+					if msg >= 100 {
+						tok.Ds = [][]int{{}, {0}, {0, 0}}[rng.Intn(3)]
+					}
+				}
+				if p.otherPkg && rng.Chance(40) {
+					tok.ID += 500
+				}
 				msgSet[msg] = true
-				p.units = append(p.units, c11Unit{toks: []c11Tok{{K: 'M', Fl: f, Kind: kind, Msg: msg, ID: id}}, deps: []int{unitOf[f]}})
+				p.units = append(p.units, c11Unit{toks: []c11Tok{tok}, deps: []int{unitOf[f]}})
 				id++
 			}
 		}
@@ -950,6 +1335,11 @@ func c11RandomProg(rng *lib.Rng) *c11Prog {
 		p.msgs = append(p.msgs, m)
 	}
 	sort.Ints(p.msgs)
+	for _, m := range p.msgs {
+		if m == 1 || m == 2 || m == 201 {
+			p.argMsgs = append(p.argMsgs, m)
+		}
+	}
 	return p
 }
 
@@ -1003,7 +1393,7 @@ func c11Compare(cs c11Case, model string) (diffs []c11Diff) {
 	obsSegs := strings.Fields(obsReply)[1:]
 	var obs []c11Tok
 	for _, t := range cs.toks {
-		if t.K == 'S' || t.K == 'V' || t.K == 'P' {
+		if t.K == 'S' || t.K == 'A' || t.K == 'V' || t.K == 'P' {
 			obs = append(obs, t)
 		}
 	}
@@ -1017,10 +1407,25 @@ func c11Compare(cs c11Case, model string) (diffs []c11Diff) {
 			switch ob.K {
 			case 'S':
 				sig = c11SendSignature(cs.toks, meta, ob, expSegs[i], obsSegs[i], "send")
+			case 'A':
+				sig = c11SendSignature(cs.toks, meta, ob, expSegs[i], obsSegs[i], "send-args")
 			case 'V':
 				kind := "variable-default"
 				if ob.Slot >= 10 {
 					kind = "init-keyword"
+				}
+				if ob.Slot == c11HandlerSlot {
+					kind = "default-handler"
+				}
+				if ob.Slot > c11InitableBase {
+					// V=nil expected: a component lists the variable, the flavor must accept it;
+					// V=none expected: nobody in the precedence list lists it
+					sig = "entry=slot kind=initable aspect=not-inherited"
+					if expSegs[i] == "V=none" {
+						sig = "entry=slot kind=initable aspect=restriction-lost"
+					}
+					add(sig, obsSegs[i], expSegs[i], ob.wire())
+					continue
 				}
 				sig = fmt.Sprintf("entry=slot kind=%s aspect=value", kind)
 			default:
@@ -1038,6 +1443,9 @@ func c11Compare(cs c11Case, model string) (diffs []c11Diff) {
 				differs := bt != et || (strings.HasPrefix(er, "p") && br != er)
 				if strings.HasPrefix(e, "S=!") || strings.HasPrefix(b, "S=!") {
 					differs = strings.HasPrefix(e, "S=!") != strings.HasPrefix(b, "S=!")
+				}
+				if strings.HasPrefix(e, "S=!handled") {
+					differs = false // the second entry point of a default handler is not compared
 				}
 				if differs {
 					if !strings.HasPrefix(er, "p") {
@@ -1065,7 +1473,7 @@ func c11Without(toks []c11Tok, i int) (out []c11Tok, ok bool) {
 	}
 	for _, u := range toks {
 		if u.K == 'F' && u.Fl != t.Fl {
-			for _, c := range u.Comps {
+			for _, c := range append(append([]int{}, u.Comps...), u.Incl...) {
 				if c == t.Fl {
 					return nil, false
 				}
@@ -1196,6 +1604,36 @@ func runC11(c *lib.Ctx) {
 			cases = append(cases, c11Case{toks: p.tokens(o, mid), sweep: true, label: fmt.Sprintf("sweep/%s/order%d", labels[i], oi)})
 		}
 	}
+	extProgs, extLabels := c11SweepProgsExt()
+	extLimit := c.Scale(400, 20000)
+	for i, p := range extProgs {
+		orders, complete := p.allOrders(extLimit)
+		if !complete {
+			c.Ev.Hist("ext_sweep_order_enumeration", "capped")
+		} else {
+			c.Ev.Hist("ext_sweep_order_enumeration", "complete")
+		}
+		prog := p
+		mid := func(defined []int) []c11Tok {
+			var out []c11Tok
+			for _, f := range defined {
+				switch {
+				case prog.bodies:
+					out = append(out, c11Tok{K: 'A', Fl: f, Msg: 1, Arg: 10})
+				case prog.handlers:
+					out = append(out, c11Tok{K: 'V', Fl: f, Slot: c11HandlerSlot}, c11Tok{K: 'S', Fl: f, Msg: 1})
+				case prog.initable:
+					// observed in the final block only
+				default:
+					out = append(out, c11Tok{K: 'S', Fl: f, Msg: 1})
+				}
+			}
+			return out
+		}
+		for oi, o := range orders {
+			cases = append(cases, c11Case{toks: p.tokens(o, mid), sweep: true, label: fmt.Sprintf("sweep/%s/order%d", extLabels[i], oi)})
+		}
+	}
 	nSweep := len(cases)
 
 	// --- malformed histories: the rejected form is the last one
@@ -1227,6 +1665,12 @@ func runC11(c *lib.Ctx) {
 			}
 			f := defined[rng.Intn(len(defined))]
 			m := p.msgs[rng.Intn(len(p.msgs))]
+			if (m == 1 || m == 2 || m == 201) && rng.Chance(40) {
+				return append(out, c11Tok{K: 'A', Fl: f, Msg: m, Arg: rng.Intn(9)})
+			}
+			if rng.Chance(10) {
+				out = append(out, c11Tok{K: 'V', Fl: f, Slot: c11HandlerSlot})
+			}
 			out = append(out, c11Tok{K: 'S', Fl: f, Msg: m})
 			if m >= 100 && m < 200 {
 				out = append(out, c11Tok{K: 'V', Fl: f, Slot: m - 100})
@@ -1236,6 +1680,18 @@ func runC11(c *lib.Ctx) {
 		c.Ev.Hist("flavors", strconv.Itoa(p.nF))
 		if p.redefinition {
 			c.Ev.Hist("programs_with", "method-redefinition")
+		}
+		if p.otherPkg {
+			c.Ev.Hist("programs_with", "methods-defined-in-another-package")
+		}
+		if p.bodies {
+			c.Ev.Hist("programs_with", "whopper-bodies-0-1-2-continues")
+		}
+		if p.handlers {
+			c.Ev.Hist("programs_with", "default-handler")
+		}
+		if p.included {
+			c.Ev.Hist("programs_with", "included-flavors")
 		}
 		c.Ev.Hist("units", strconv.Itoa(len(p.units)/5*5)+"+")
 		if len(p.units) <= 6 {
@@ -1267,7 +1723,7 @@ func runC11(c *lib.Ctx) {
 		meta := c11MetaOf(cs.toks)
 		for _, t := range cs.toks {
 			switch t.K {
-			case 'F', 'M':
+			case 'F', 'M', 'W':
 				muts++
 				if obsAfter && muts >= 2 {
 					nontrivial = true
@@ -1310,5 +1766,5 @@ func runC11(c *lib.Ctx) {
 	c.Ev.Coverage["observations"] = observations
 	c.Ev.Coverage["sweep_cases"] = nSweep
 	c.Ev.Coverage["random_cases"] = len(cases) - nSweep
-	c.Ev.Coverage["rule"] = "case = one history (order of defflavor/defmethod/defwhopper forms, with observations in between and a full observation block at the end: precedence list, every slot, every message on an instance of every flavor, each send also through Instance.BoundReceive); sweep = 5 small DAG shapes x 4 daemon kinds x user/vanilla message x every valid order (exhaustive, seed independent); random = DAGs with <= 5 flavors and <= 3 components, random slots/accessors/daemons, all permutations when <= 6 forms, else sampled orders (uniform / all methods late / textual); non-trivial = >= 2 mutations with an observation between them; distinct by request line"
+	c.Ev.Coverage["rule"] = "case = one history (order of defflavor/defmethod/defwhopper forms, with observations in between and a full observation block at the end: precedence list, every slot, every message on an instance of every flavor, each send also through Instance.BoundReceive); sweep = 5 small DAG shapes x 4 daemon kinds x user/vanilla message x every valid order (exhaustive, seed independent); random = DAGs with <= 5 flavors and <= 3 components, random slots/accessors/daemons, all permutations when <= 6 forms, else sampled orders (uniform / all methods late / textual); extension sweeps (every valid order, capped at 400 in the quick tier) = methods defined in another package, whopper bodies with 0/1/2 continues and changed arguments observed with an argument (A), default handlers, included flavors, initable variables (known finding); random programs also draw those features (15 % other package, 40 % whopper bodies, 15 % of flavors a default handler, 12 % included flavors); non-trivial = >= 2 mutations with an observation between them; distinct by request line"
 }
